@@ -17,6 +17,7 @@ import (
 	"testing"
 
 	"github.com/advancedclimatesystems/gonnx"
+	"github.com/advancedclimatesystems/gonnx/onnx"
 	"gorgonia.org/tensor"
 	"pgregory.net/rapid"
 )
@@ -32,6 +33,25 @@ type c17Workload struct {
 	Model   string          `json:"model_b64"`
 	Feeds   [][][]c17Tensor `json:"feeds"` // goroutine -> call -> tensors
 	Loaders int             `json:"loaders"`
+	// FailuresFirst: before the concurrent phase the process sees Runs that fail (another model
+	// with an unknown operator, the shared model without its inputs)
+	FailuresFirst bool `json:"failures_first,omitempty"`
+}
+
+// failingRuns performs Runs that must fail, on another model and on m.
+func failingRuns(m *gonnx.Model) string {
+	g := &onnx.GraphProto{Input: []*onnx.ValueInfoProto{valueInfo("x", 1, 2)}, Output: []*onnx.ValueInfoProto{valueInfoNoShape("y")},
+		Node: []*onnx.NodeProto{mkNode("NoSuchOperator", []string{"x"}, []string{"y"})}}
+	lr := loadBytes(marshalModel(mkModel(g, 13)))
+	if lr.err == nil && !lr.panicked {
+		for i := 0; i < 2; i++ {
+			if r := runModel(lr.m, gonnx.Tensors{"x": mkT([]int{2}, []float32{1, 2})}); r.err == nil && !r.panicked {
+				return "a model with an unknown operator was executed"
+			}
+		}
+	}
+	_ = runModel(m, gonnx.Tensors{})
+	return ""
 }
 
 func encodeFeed(f gonnx.Tensors) []c17Tensor {
@@ -66,6 +86,11 @@ func runWorkload(w c17Workload) string {
 	shared := loadBytes(b)
 	if shared.err != nil || shared.panicked {
 		return fmt.Sprintf("model does not load: %v %v", shared.err, shared.panicVal)
+	}
+	if w.FailuresFirst {
+		if v := failingRuns(shared.m); v != "" {
+			return v
+		}
 	}
 	before := snapTensors(gonnx.VerifParameters(shared.m))
 	got := make([][]runResult, len(w.Feeds))
@@ -203,11 +228,14 @@ func TestC17(t *testing.T) {
 		} else {
 			maxNodes := 6
 			if rapid.IntRange(0, 9).Draw(rt, "bigGraph") == 0 {
-				maxNodes = 45 // the sample models have at most 20 nodes
+				maxNodes = rapid.SampledFrom([]int{45, 45, 90}).Draw(rt, "bigGraphNodes") // the sample models have at most 20 nodes
 			}
 			gg := genGraph(rt, ggOpts{maxNodes: maxNodes, aliasRoutes: rapid.Bool().Draw(rt, "aliasRoutes"), weightOps: true, allOutputs: rapid.Bool().Draw(rt, "allOutputs")})
 			if len(gg.nodes) >= 32 {
 				opClasses = append(opClasses, "graph>=32-nodes")
+			}
+			if len(gg.nodes) >= 64 {
+				opClasses = append(opClasses, "graph>=64-nodes")
 			}
 			w.Desc = gg.String()
 			w.Model = base64.StdEncoding.EncodeToString(marshalModel(gg.model(rt)))
@@ -234,6 +262,7 @@ func TestC17(t *testing.T) {
 			w.Feeds = append(w.Feeds, fs)
 		}
 		w.Loaders = rapid.SampledFrom([]int{0, 0, 1, 2}).Draw(rt, "loaders")
+		w.FailuresFirst = rapid.IntRange(0, 3).Draw(rt, "failuresFirst") == 0
 		if failDir != "" {
 			// keep the workload that is about to run: if the race detector aborts the process this
 			// file is the replay case
